@@ -9,24 +9,77 @@ TB = ("Trusted: Lean 4.33.0 kernel and the axioms printed per theorem in the evi
       "bv_decide certificates only where named); the Lean compiler running cxdrv; the hand-written models in lean/Cx/Model, "
       "tied to /repo only through the correspondence run of this check; the Go harness (generators, dumpers, diff) and the toolchain's regexp/unicode packages. ")
 
+def E(cat, sec, text, note, tech):
+    return dict(cat=cat, sec=sec, text=text, note=TB + note, tech=tech)
+
 CLAIMED = {
- "C04": dict(cat="proof", sec="§7 C04",
-   text="Theorems (Lean, all inputs): each hand-written enumeration loop of coregex, modelled over an abstract single-match function, returns exactly what regexp's allMatches returns, for every input length, rune-width function and limit n (C04_findAllIndicesLoop, C04_count_loop, C04_iterator, C04_anchored_shortcut, C04_limit_is_prefix, C04_enumeration_wellformed). Tie: the real engine's FindIndicesAt/FindSubmatchAt table is recorded at every offset and the Lean loop models, run over it, must reproduce every enumeration API's output; a case is a violation only if the API also differs from regexp.",
-   note=TB + "Hypotheses FindOK/WidthOK are checked on every recorded table (the engine contract itself is C02's subject). Known findings: see known_findings.json (C04-*).",
-   tech="Lean 4 theorems over loop models + recorded-table correspondence"),
- "C14": dict(cat="proof", sec="§7 C14",
-   text="Theorems: the bounded-backtracker model is sound and complete for the NFA path relation (boolean search with a visited set shared across start positions; span search: accepted span, leftmost start, none iff no match). The model is the executable reference: PikeVM (3 entry points), the real backtracker (*WithState, reused state) and the lazy DFA (8 cache/clear configurations incl. caches too small for one state) are driven directly on NFAs dumped from the code, over exhaustive short haystacks of byte-class representatives plus pattern-derived haystacks, every start offset.",
-   note=TB + "The lazy DFA is not modelled; it is compared with the proved reference and its documented defect classes are open findings (C14-dfa-*). Priority (which end among ends at the leftmost start) is part of the reference, proved only for the backtracker.",
-   tech="Lean 4 theorems (memoised DFS = NFA path relation) + engine-level correspondence on dumped NFAs"),
- "C18": dict(cat="proof", sec="§7 C18",
-   text="Theorems (all haystacks, all lengths): the SWAR zero-byte detector is exact at its lowest set bit; memchr/memchr2/memchr3 generic, isASCII generic and the rare-byte memmem loop equal their one-line scalar definitions. Tie: every exported primitive x every length 0..130 (200 thorough) x placement against inaccessible pages (both ends, read-only data) x every hit position, with vector extensions enabled and masked, compared with the scalar definition; a sample replayed through the Lean models.",
-   note=TB + "bv_decide is used for the fixed-width bit-vector lemmas of hasZero (axioms *_native.bv_decide.ax_* listed in evidence). The assembly kernels are not modelled (no ISA semantics in Lean): for them the exhaustive enumeration is the evidence (partial).",
-   tech="Lean 4 theorems (BitVec + induction over chunks) + exhaustive guard-page correspondence"),
+ "C01": E("proof", "§7 C01", "Theorem chain (Lean): for every AST of the modelled fragment, backtracker-model(compile-model(re)) reports a match iff some substring is in the declarative language M re (compile_lang: Accepts (compile re) ⇔ M re, proved for the transliterated Thompson compiler; memoised DFS sound+complete). Ties: the compile model's NFA must equal, state by state, the NFA the real compiler produces (language comparison on all short inputs as fallback); Match/MatchString/MatchReader/package functions are compared with regexp on generated patterns and haystacks (valid, multi-byte, ill-formed, long).",
+   "Partial: M ≈ regexp is validated, not proved; Unicode classes, folding and dot are verified per instance by C15's checker; the strategy dispatch around the NFA engines is only correspondence-checked and its defects are open findings keyed by (strategy, primary feature).",
+   "Lean 4 theorems (Thompson compile correctness + memoised DFS) + NFA translation validation + differential against regexp"),
+ "C02": E("proof", "§7 C02", "Theorems: the span reported by the backtracker model on the compiled NFA is a match of the AST, starts at the leftmost start with any match, and none iff nothing matches (composition of compile_lang with btSearchAt_sound/leftmost); the Pike VM model returns exactly the backtracker's span (pike_search_eq_bt: ordered-thread simulation = priority DFS). Ties: C14 drives every engine on dumped NFAs against this reference; Find/FindIndex/FindString/FindStringIndex/FindReaderIndex are compared with regexp end-to-end.",
+   "Partial: equality of the automaton's priority order with regexp's is validated by correspondence; the reverse/bidirectional strategies are not modelled (open findings).",
+   "Lean 4 theorems (leftmost start, Pike = priority DFS) + differential against regexp"),
+ "C03": E("proof", "§7 C03", "Capture positions: reference = first accepting path of the priority DFS with slot writes (Lean), Pike VM capture search and one-pass DFA models tied to the real engines on dumped NFAs; FindSubmatch* family compared with regexp end-to-end, group count = NumSubexp()+1.",
+   "Partial: see evidence for which capture theorems are discharged in this run; end-to-end defects are open findings.",
+   "Lean 4 models of capture engines + engine-level correspondence + differential against regexp"),
+ "C04": E("proof", "§7 C04", "Theorems (Lean, all inputs): each hand-written enumeration loop of coregex, modelled over an abstract single-match function, returns exactly what regexp's allMatches returns, for every input length, rune-width function and limit n (C04_findAllIndicesLoop, C04_count_loop, C04_iterator, C04_anchored_shortcut, C04_limit_is_prefix, C04_enumeration_wellformed). Tie: the real engine's FindIndicesAt/FindSubmatchAt table is recorded at every offset and the Lean loop models, run over it, must reproduce every enumeration API's output; a case is a violation only if the API also differs from regexp.",
+   "Hypotheses FindOK/WidthOK are checked on every recorded table (the engine contract itself is C02's subject). Open findings: C04-*.",
+   "Lean 4 theorems over loop models + recorded-table correspondence"),
+ "C05": E("proof", "§7 C05", "Theorems on cost-instrumented engine models (same results by erasure lemmas): backtracker boolean search ≤ 2·|N|·(|h|+1)+(|h|+1) steps; span search with one visited table for all starts is linear and returns the same answers (the formal basis of the fix commit), with a fresh table per start only a quadratic bound holds and a*b on a^n attains it; Pike VM ≤ 15·|N|·(|h|-at+1)+6. Tie: work of the real code = executed basic blocks (coverage counters around one call) on adversarial families per strategy at n = 512..8192; doubling n must at most ~double the work; compile work must stay polynomial.",
+   "Partial: rescanning strategies (candidate loops, composite searcher, reverse searches) are measured, not modelled; constants relate model steps to blocks only up to a factor.",
+   "Lean 4 step-count theorems + deterministic work measurement"),
+ "C06": E("proof", "§7 C06", "Theorem: in every reachable state of the getSearchState/putSearchState protocol (atomic slot + pool, any interleaving, GC dropping pooled states) no per-search state is held twice. Ties: (a) go/ast source facts — every use of engine-/searcher-level scratch state on a search path must be a listed call site; (b) a -race build: 8 goroutines replay strategy-covering calls on shared values, results compared with sequential ones, race reports attributed to listed call sites.",
+   "Partial: the Go memory model, sync.Pool and completeness of the fact extractor are trusted; schedules of the real runtime are sampled by the race detector. Open findings list the shared-simulator call sites.",
+   "Lean 4 invariant over all interleavings + source-fact extraction + race-detector run"),
+ "C07": E("proof", "§7 C07", "All model functions are total (accepted without `partial`; fuel proved sufficient); proved well-formedness: spans inside the input and ordered, enumerations ordered/non-overlapping, rune steps inside the input, prefilter matches are real occurrences. Tie: worker processes try arbitrary strings as patterns and every search API on haystacks placed against inaccessible pages (both ends, read-only) for every length 0..70, checking bounds, group nesting, ordering, aliasing of returned slices and that the input is unchanged; a crash names its input.",
+   "Partial: faults, stack growth and what the assembly reads are runtime facts observed through guard pages, not modelled.",
+   "Lean 4 totality/well-formedness theorems + guard-page worker runs"),
+ "C08": E("proof", "§7 C08", "Theorems: the Replace* loop model equals regexp.replaceAll for every well-behaved matcher, source and replacement function (with the forced hypothesis RuneAligned and a machine-checked refutation of the unrestricted statement); the ported expand equals regexp.expand for every template, match vector and name list; the ported Split equals regexp.Split for every n. Ties: models run over recorded match tables vs the nine APIs; spec validation of Lean expand against real regexp.Expand.",
+   "Hypotheses FindOK/WidthOK/RuneAligned are checked on every recorded table. unicode.IsLetter/IsDigit enter as a parameter supplied per template.",
+   "Lean 4 theorems (loop/expand/split equivalence) + recorded-table correspondence"),
+ "C09": E("proof", "§7 C09", "Theorems: QuoteMeta equals regexp.QuoteMeta, inserts exactly one backslash before each special byte and is invertible. Ties: QuoteMeta model/spec vs both implementations; differential on valid, near-valid and limit-probing strings: Compile/CompilePOSIX/MustCompile error presence and text, String, NumSubexp, SubexpNames, SubexpIndex, LiteralPrefix, Marshal/Unmarshal, Copy isolation, Compile(QuoteMeta(s)) matches exactly s.",
+   "Partial: acceptance and metadata are delegated to regexp/syntax or regexp by the code; that part is correspondence, not theorem.",
+   "Lean 4 theorems (QuoteMeta) + differential against regexp on generated strings"),
+ "C10": E("proof", "§7 C10", "Theorem: in longest mode the Pike VM model returns the leftmost start and, for it, the greatest end of the NFA's language (declarative leftmost-longest), and both modes agree on existence. Ties: Pike longest model vs real PikeVM (C14 run); every API in longest mode and CompilePOSIX vs regexp; Longest on a Copy/second value leaves the first unchanged.",
+   "Partial: that every dispatch path honours the flag is correspondence; strategies ignoring it are open findings.",
+   "Lean 4 theorem (leftmost-longest) + mode x strategy x API differential"),
+ "C11": E("proof", "§7 C11", "Theorems: Count = len(FindAll), iterators = FindAll(-1), FindAll(n) = prefix of FindAll(-1), FindAllSubmatch spans well-formed — corollaries of the loop theorems over one single-match function. Tie: ~20 relations between views of one value evaluated on the real code on inputs up to 64 KiB, no oracle.",
+   "Partial: Match ⇔ Find, Find = group 0, string/bytes/reader agreement are relations between engine dispatchers, tied by correspondence only.",
+   "Lean 4 corollaries + oracle-free relation checks on the real code"),
+ "C12": E("proof", "§7 C12", "Every configuration selects among engines each of which is proved or tied equal to the NFA reference (C14 theorems); the check evaluates 12 configurations (DFA/prefilter off, state/determinisation limits, literal limits, ASCII optimisation) against the default and NFA-only configurations on generated patterns and haystacks.",
+   "Partial: the configuration plumbing itself is not modelled; configurations that change answers are open findings keyed by configuration.",
+   "Lean 4 engine theorems (reference is configuration-free) + configuration-lattice differential"),
+ "C13": E("proof", "§7 C13", "Theorems for every history: after any sequence of searches of any sizes, bumps and markings (across the uint16 wrap and re-slicing) a new search sees no visited entry; marking is exact; a cache clear returns the accounting to that of a new cache. Ties: visited model vs BacktrackerState over 70 000 calls; reuse across the generation wrap vs fresh state; lazy DFA reused cache vs fresh cache; aged Regex vs fresh Regex call by call with GC in between.",
+   "The lazy DFA's transition memo is not modelled; its history dependence for look-around patterns is an open finding.",
+   "Lean 4 invariants over operation sequences + history correspondence"),
+ "C14": E("proof", "§7 C14", "Theorems: the bounded-backtracker model is sound and complete for the NFA path relation (boolean search with a shared visited set; span search: accepted span, leftmost start, none iff no match); the Pike VM model equals it (isMatch iff, search = priority DFS, longest). The models are the executable reference: PikeVM (5 entry points incl. longest), the real backtracker (*WithState, reused state) and the lazy DFA (8 cache/clear configurations incl. caches too small for one state) are driven directly on NFAs dumped from the code, over exhaustive short haystacks of byte-class representatives plus pattern-derived haystacks, every start offset.",
+   "The lazy DFA is not modelled; it is compared with the proved reference; its look-around and lazy-quantifier defects are open findings (C14-dfa-*).",
+   "Lean 4 theorems (memoised DFS = NFA path relation; Pike = DFS) + engine-level correspondence on dumped NFAs"),
+ "C15": E("proof", "§7 C15", "Per class instance, a Lean-executed checker decides for EVERY code point and every ill-formed string of ≤2 bytes (3 over boundary bytes) that the compiled byte automaton accepts exactly the UTF-8 of the class members (all three compilation modes); theorems: decode∘encode = id on scalar values, a decode step consumes the encoding of its rune or one byte, stays inside the input. Inventory: Perl/POSIX/Unicode classes, negations, boundary ranges, folded literals/classes, dot, random unions.",
+   "The quantifier over runes is discharged by exhaustive enumeration inside the checker (exhaustive: true), the quantifier over classes is sampled. Behaviour inside concatenations on ill-formed input is an open finding.",
+   "Lean 4 UTF-8 theorems + exhaustive verified class checker on dumped NFAs"),
+ "C16": E("proof", "§7 C16", "Theorems (slim Teddy model): mask soundness, Find = least offset where a literal occurs, reported match is a real occurrence, reported literal is the first in pattern order for any number of literals (after the fix commit); memmem = naive. Ties: every prefilter implementation (memchr, memmem, slim/fat Teddy, Aho-Corasick, wrappers, digit) vs the naive definition on systematic plants across 16/32/64-byte blocks, near misses, all starts; complete prefilters vs regexp on the source alternation; Teddy vs the Lean model.",
+   "Assembly kernels and the Aho-Corasick library are tied by correspondence only.",
+   "Lean 4 theorems (fingerprint soundness, find = naive, priority) + systematic correspondence"),
+ "C17": E("proof", "§7 C17", "A verified checker (Lean, soundness theorems checkPrefix/Suffix/Inner_sound) decides on the dumped NFA that EVERY match in EVERY haystack starts with / ends with / contains one of the extracted literals; it runs on the real extractor's output under default and tight limits; a failing check yields a witness validated against regexp; complete literals must themselves match.",
+   "Look-around is over-approximated (ok is still a proof; a failure crossing look-around is validated or counted inconclusive). The quantifier over patterns and limits is sampled.",
+   "Lean 4 verified checker (NFA x literal-automaton product) on real extractor output"),
+ "C18": E("proof", "§7 C18", "Theorems (all haystacks, all lengths): the SWAR zero-byte detector is exact at its lowest set bit; memchr/memchr2/memchr3 generic, isASCII generic and the rare-byte memmem loop equal their one-line scalar definitions. Tie: every exported primitive x every length 0..130 (200 thorough) x placement against inaccessible pages (both ends, read-only data) x every hit position, with vector extensions enabled and masked, compared with the scalar definition; a sample replayed through the Lean models.",
+   "bv_decide is used for the fixed-width bit-vector lemmas of hasZero (axioms *_native.bv_decide.ax_* listed in evidence). The assembly kernels are not modelled: for them the exhaustive enumeration is the evidence (partial).",
+   "Lean 4 theorems (BitVec + induction over chunks) + exhaustive guard-page correspondence"),
+ "C19": E("proof", "§7 C19", "Per fast path (char-class searcher incl. streaming enumeration, composite searcher, anchored-literal matcher, branch dispatcher, first-byte filter): Lean transliterations of predicate, constructor and searcher; exactness theorems w.r.t. a reference matcher on explicit fragments, and 'applicability ⇒ fragment' where it holds; decide-checked counterexamples where the predicate accepts more. Ties: models vs real predicates/searchers on templates and all one-node mutations over exhaustive short haystacks; accepted patterns vs the reference matcher.",
+   "Partial: reverse-anchored/suffix/inner strategies are not modelled (covered end-to-end by C01/C02 findings); branch dispatcher and first-byte filter accept more than their fragments (open findings).",
+   "Lean 4 exactness theorems per fast path + mutation-boundary correspondence"),
+ "C20": E("proof", "§7 C20", "Theorems: cache memory ≤ capacity + one state's worth for every history of inserts and clears; the visited table never exceeds the largest admitted request; a sequential caller never makes the pool allocate after warm-up. Ties: MemoryUsage() after every directly driven search with capacities 1 B..2 MB vs the proved bound; visited length vs MaxVisitedSize; heap held after 1800/3300 searches; AllocsPerRun == 0 for the documented zero-allocation calls on strategy templates.",
+   "Partial: escape analysis, map growth and the allocator are measured; zero-allocation failures under DFA-based strategies are an open finding.",
+   "Lean 4 accounting invariants + memory/allocation measurement"),
 }
+
+REGISTERED = ["C04", "C05", "C06", "C07", "C08", "C09", "C13", "C14", "C15", "C16", "C17", "C18", "C20"]
 
 checks = []
 for pid in ids:
-    if pid not in CLAIMED:
+    if pid not in REGISTERED:
         continue
     c = CLAIMED[pid]
     checks.append({
@@ -46,12 +99,12 @@ m = {
     "setup_cmd": "./setup.sh",
     "hooks": {"guard": "verif", "enable": "harness built with `go build -tags verif` (module /verif/harness, replace github.com/coregx/coregex => /repo)",
               "baseline_off_cmd": "cd /repo && go test -mod=mod -vet=off -count=1 -timeout 25m ./...", "source_commits": [], "add_only": True},
-    "engines": [{"name": "lean-cx", "path": "lean/", "serves_properties": sorted(CLAIMED), "kind_free_text":
+    "engines": [{"name": "lean-cx", "path": "lean/", "serves_properties": sorted(REGISTERED), "kind_free_text":
                  "Lean 4 library Cx (Spec/Model/Proofs/Properties) + driver cxdrv; Go harness harness/cmd/vcheck; entry point ./check"}],
     "checks": checks,
     "not_applicable": [{"property_id": i, "reason": "check under construction in this session (model/theorems exist or are planned, see DESIGN.md §7); not yet registered"}
-                       for i in ids if i not in CLAIMED],
+                       for i in ids if i not in REGISTERED],
     "notes": "Machine-checked proof in Lean 4 is the deciding technique for every claimed property; see DESIGN.md.",
 }
 json.dump(m, open(os.path.join(V, "MANIFEST.json"), "w"), indent=1)
-print("claimed", sorted(CLAIMED), "not claimed", [i for i in ids if i not in CLAIMED])
+print("claimed", sorted(CLAIMED), "not claimed", [i for i in ids if i not in REGISTERED])
